@@ -93,7 +93,7 @@ func c03Consistent(s *h.Sim, m *c03Model) (string, string) {
 		if !occupied || id != sp.ID {
 			return "C03/seat-manager-disagrees-with-table", fmt.Sprintf("seat %d: seat manager says %s, table says %q", seat, sp.ID, id)
 		}
-		pi := t.FindPlayerIdx(id)
+		pi := h.PlayerIdx(t, id)
 		if t.State.PlayerStates[pi].IsIn != sp.IsIn {
 			return "C03/seated-in-flag-differs", fmt.Sprintf("player %s: table is_in=%v, seat manager is_in=%v", id, t.State.PlayerStates[pi].IsIn, sp.IsIn)
 		}
@@ -464,7 +464,7 @@ func c03Run(c *h.Ctx) {
 		// read back random seats
 		for id, seat := range model.seatOf {
 			if seat == -1 {
-				if pi := s.TE.GetTable().FindPlayerIdx(id); pi >= 0 {
+				if pi := h.PlayerIdx(s.TE.GetTable(), id); pi >= 0 {
 					model.seatOf[id] = s.TE.GetTable().State.PlayerStates[pi].Seat
 					if vacated[model.seatOf[id]] {
 						reused++
